@@ -73,7 +73,7 @@ def main(tier):
              "set == reference (cut-off and forwarding) and from-scratch content after exit 0; the four quadrants "
              "(checksum changed x decided in-band/out-of-band) must each be exercised",
         assumptions=["-j1, REDO_LOG=0", "flat worlds"],
-        budget_s=45 if tier == "quick" else 3000)
+        budget_s=900 if tier == "quick" else 6000)
 
 
 def replay(path):
